@@ -1626,6 +1626,11 @@ func (cs *ConsensusState) ValidateBlock(block *types.Block) error {
 		return fmt.Errorf("Block.Header.ProposerAddress, %X, is not a validator", block.ProposerAddress)
 	}
 
+	// The header commits to the validator set of this height; nothing else compares it.
+	if !bytes.Equal(block.ValidatorsHash, s.Validators.Hash()) {
+		return fmt.Errorf("Wrong Block.Header.ValidatorsHash.  Expected %X, got %X", s.Validators.Hash(), block.ValidatorsHash)
+	}
+
 	// Validate block LastCommit.
 	if block.Height == 1 {
 		if len(block.LastCommit.Precommits) != 0 {
